@@ -281,3 +281,101 @@ def mutated_handouts(model: Model, cg: CallGraph, functions: Optional[List[Funct
             verdicts = [(g,) + fr.getter_fresh(g) for g in provs]
             out.append(Handout(f, ast.unparse(recv), recv, n, verdicts, True))
     return out
+
+
+# ---------------------------------------------------------------------------------------------
+@dataclass
+class SharedContainer:
+    cls: object
+    attr: str
+    decl: ast.AST
+    site: FunctionInfo
+    node: ast.AST
+    why: str
+
+    @property
+    def loc(self) -> str:
+        return f"{self.site.module.relpath}:{self.node.lineno}"
+
+
+def _is_singleton(c) -> bool:
+    for k in c.mro():
+        kw = getattr(k.node, "keywords", [])
+        for w in kw:
+            if w.arg == "metaclass" and "Singleton" in ast.unparse(w.value):
+                return True
+    return False
+
+
+def shared_class_containers(model: Model, classes=None) -> Tuple[List[SharedContainer], int]:
+    """Instance state that lives in a class attribute: ``self.X[k] = v`` / ``self.X.append(v)`` where X is bound nowhere per instance (not in
+    ``__init__`` / ``__post_init__``, not a dataclass field with a default factory) but only as a class-level container display.  Every instance then
+    reads and writes the same container.  Returns (findings, number of (class, attribute) pairs examined)."""
+    out: List[SharedContainer] = []
+    examined = 0
+    for c in (classes if classes is not None else model.all_classes()):
+        if _is_singleton(c) or c.is_subclass_of("type") or "type" in c.external_bases() or "ABCMeta" in c.external_bases():
+            continue
+        # attributes changed in place through self
+        for f in [g for k in c.mro() for gs in k.methods.values() for g in gs] + [g for k in c.mro() for g in k.setters.values()]:
+            if f.kind in ("staticmethod", "classmethod") or not f.param_names:
+                continue
+            sn = f.self_name
+            for n in ast.walk(f.node):
+                attr = None
+                if isinstance(n, ast.Call) and isinstance(n.func, ast.Attribute) and n.func.attr in MUTATORS and isinstance(n.func.value, ast.Attribute) \
+                        and isinstance(n.func.value.value, ast.Name) and n.func.value.value.id == sn:
+                    attr = n.func.value.attr
+                elif isinstance(n, (ast.Assign, ast.AugAssign, ast.Delete)):
+                    for t in (n.targets if isinstance(n, (ast.Assign, ast.Delete)) else [n.target]):
+                        if isinstance(t, ast.Subscript) and isinstance(t.value, ast.Attribute) and isinstance(t.value.value, ast.Name) and t.value.value.id == sn:
+                            attr = t.value.attr
+                if attr is None:
+                    continue
+                examined += 1
+                # where is it bound per instance?
+                per_instance = False
+                decl = None
+                for k in c.mro():
+                    for iname in ("__init__", "__post_init__", "__new__"):
+                        for g in k.methods.get(iname, []):
+                            for m_ in ast.walk(g.node):
+                                if isinstance(m_, (ast.Assign, ast.AnnAssign)):
+                                    for t in (m_.targets if isinstance(m_, ast.Assign) else [m_.target]):
+                                        if isinstance(t, ast.Attribute) and t.attr == attr and isinstance(t.value, ast.Name) and t.value.id == g.self_name:
+                                            per_instance = True
+                                if isinstance(m_, ast.Call) and ast.unparse(m_.func).endswith("__setattr__") and len(m_.args) >= 2 \
+                                        and isinstance(m_.args[1], ast.Constant) and m_.args[1].value == attr:
+                                    per_instance = True
+                    fi = k.own_fields.get(attr) if hasattr(k, "own_fields") else None
+                    if fi is not None:
+                        if k.is_dataclass and not fi.is_classvar:
+                            per_instance = True      # a dataclass field: a mutable default is refused by dataclasses, a factory makes one per instance
+                        elif decl is None:
+                            decl = fi.default        # an annotated class-level assignment of an ordinary class (or a ClassVar)
+                        break
+                    if attr in k.class_attrs and decl is None:
+                        decl = k.class_attrs[attr]
+                # other methods binding self.attr = <fresh> before use (lazy init) also make it per instance
+                if not per_instance:
+                    for k in c.mro():
+                        for gs in k.methods.values():
+                            for g in gs:
+                                for m_ in ast.walk(g.node):
+                                    if isinstance(m_, (ast.Assign, ast.AnnAssign)):
+                                        for t in (m_.targets if isinstance(m_, ast.Assign) else [m_.target]):
+                                            if isinstance(t, ast.Attribute) and t.attr == attr and isinstance(t.value, ast.Name) and t.value.id == g.self_name:
+                                                per_instance = True
+                if per_instance or decl is None:
+                    continue
+                if isinstance(decl, (ast.Dict, ast.List, ast.Set, ast.DictComp, ast.ListComp, ast.SetComp)) or \
+                        (isinstance(decl, ast.Call) and (dotted(decl.func) or "").split(".")[-1] in ("dict", "list", "set", "defaultdict", "OrderedDict", "Counter", "deque")):
+                    out.append(SharedContainer(c, attr, decl, f, n, f"{c.name}.{attr} is a class-level {type(decl).__name__.lower()} and no constructor binds it per instance"))
+    # one finding per (class, attr, site)
+    uniq, seen = [], set()
+    for s in out:
+        k = (s.cls.name, s.attr, s.site.qualname, s.node.lineno)
+        if k not in seen:
+            seen.add(k)
+            uniq.append(s)
+    return uniq, examined
